@@ -200,6 +200,21 @@ func Upgrade8To10(old, new string, logger *log.Logger) (retErr error) {
 	// Check for existing plan (crash recovery).
 	if fsutil.FileExists(planPath) {
 		logger.Printf("found existing upgrade plan at %s, resuming", planPath)
+		if fsutil.DirExists(new) {
+			// The new directory only ever comes into existence through the plan's rename of
+			// the completely built temporary directory, so every operation up to and including
+			// that rename has been executed. Replaying the plan from its first operation cannot
+			// succeed any more (the rename target exists, the copy source may be gone); all
+			// that can be outstanding is the removal of the old directory and of the plan.
+			if err := os.RemoveAll(old); err != nil {
+				return fmt.Errorf("failed to remove old snapshot directory %s: %s", old, err)
+			}
+			os.RemoveAll(tmpName(new))
+			os.Remove(planPath)
+			logger.Printf("completed interrupted upgrade of v8 snapshot directory to %s", new)
+			stats.Add(upgradeOk, 1)
+			return nil
+		}
 		p, err := plan.ReadFromFile(planPath)
 		if err != nil {
 			return fmt.Errorf("reading upgrade plan: %w", err)
